@@ -55,6 +55,8 @@ type traceCache struct {
 	reads map[int]*jobReads
 	// onShared is called when Set hands a job the result of ANOTHER call's fetch
 	onShared func(job int, scheme auth.Scheme, tok string)
+	// onSharedErr: Set hands a job the ERROR of another call's fetch
+	onSharedErr func(job int)
 }
 
 type jobReads struct {
@@ -151,6 +153,13 @@ func (t *traceCache) Set(ctx context.Context, registry string, scheme auth.Schem
 		t.mu.Unlock()
 		inst, ok := auth.VerifInFlight(t.inner, registry, scheme, key)
 		t.add(setLog{kind: 's', call: id, inst: inst, ok: ok})
+		defer func() {
+			// a panicking fetch: Once.Do's deferred recover hands the slot over, like a cancellation
+			if rec := recover(); rec != nil {
+				t.add(setLog{kind: 'c', call: id})
+				panic(rec)
+			}
+		}()
 		v, e := fetch(ctx)
 		switch {
 		case e == nil:
@@ -164,6 +173,15 @@ func (t *traceCache) Set(ctx context.Context, registry string, scheme auth.Schem
 	})
 	if err != nil {
 		t.add(setLog{kind: 'E', call: id, err: err})
+		t.mu.Lock()
+		own := true
+		if r := t.job(ctx); r != nil {
+			own = r.fetched
+		}
+		t.mu.Unlock()
+		if jb, ok := ctx.Value(jobKey{}).(int); ok && !own && !isCancel(err) && t.onSharedErr != nil {
+			t.onSharedErr(jb)
+		}
 	} else {
 		t.add(setLog{kind: 'R', call: id, val: tok})
 		t.mu.Lock()
